@@ -179,6 +179,17 @@ theorem step_db (cfg : Cfg) (st : St) (op : Op) :
         split <;> exact (cacheDelete_some hd).1
     · left; simp only [hn, if_false]; split <;> rfl
 
+/-- State in which `handle_logout_response` re-enters `do_logout`: the answered record is gone, the
+    issuer is taken off the shared list object. -/
+def reentry (st : St) (rid : ReqId) (rec : Rec) (x : Idp) : St :=
+  { st with pending := Dict.del rid st.pending, heap := Dict.set rec.cell ((heapGet st.heap rec.cell).erase x) st.heap }
+
+theorem cont_eq {cfg : Cfg} {st : St} {rid : ReqId} {rec : Rec} {x : Idp}
+    (hrec : Dict.get? rid st.pending = some rec) (hL : heapGet st.heap rec.cell ≠ [x])
+    (hx : x ∈ heapGet st.heap rec.cell) :
+    handleResponse cfg st (some rid) x = doLogout cfg (reentry st rid rec x) rec.subj rec.cell rec.expire :=
+  handleResponse_cont hrec hL hx
+
 /-- An operation that can bring subject `s` (back) into the cache. -/
 def storesFor (s : Subj) : Op → Prop
   | .login l => l.kind = .ok ∧ l.s = s
